@@ -50,7 +50,11 @@ func genC20(mode string) func(t *rapid.T) c20Case {
 					c.Steps = append(c.Steps, c20Step{Kind: "scrape"})
 				}
 			default:
-				c.Steps = append(c.Steps, c20Step{Kind: "idle"})
+				if rapid.IntRange(0, 2).Draw(t, "abandon") == 0 {
+					c.Steps = append(c.Steps, c20Step{Kind: "abandon", Held: rapid.IntRange(1, 3).Draw(t, "nabandon")})
+				} else {
+					c.Steps = append(c.Steps, c20Step{Kind: "idle"})
+				}
 			}
 		}
 		return c
@@ -117,6 +121,7 @@ func runC20(c c20Case) Result {
 	}
 	defer ts.stop()
 	tally := map[string]float64{}
+	abandoned := 0
 	var mu sync.Mutex
 	record := func(r genReq, res httpResult) {
 		if res.Err != "" {
@@ -153,6 +158,15 @@ func runC20(c c20Case) Result {
 			// methods outside the standard set are compared by status code only (how they are labelled is the
 			// middleware's business): both sides fold them into "other"
 			got := foldOddMethods(last.Totals)
+			// responses written to clients that had gone away were "sent" from the server's point of view only:
+			// post/400 may exceed the client-side tally by at most the number of abandoned uploads
+			extra := got["post/400"] - tally["post/400"]
+			if extra > 0 && extra <= float64(abandoned) {
+				got["post/400"] -= extra
+				if got["post/400"] == 0 {
+					delete(got, "post/400")
+				}
+			}
 			same := len(got) == len(tally)
 			for k, v := range tally {
 				if got[k] != v {
@@ -292,6 +306,25 @@ func runC20(c c20Case) Result {
 				sawErr = sawErr || res.Status >= 400
 			}
 			tags = append(tags, fmt.Sprintf("held-burst:%d", st.Held))
+		case "abandon":
+			// clients that go away in the middle of their upload: the handler's answer (400) goes nowhere. The server
+			// may or may not count it; what must hold is that the gauge returns to zero and nothing else is disturbed.
+			for j := 0; j < st.Held; j++ {
+				su, err := startSlowUpload(ts.ProverAddr, genReq{Method: "POST", Body: `{"inputHash":"0x1","preRoot":"0x2","postRoot":"0x3","identityCommitments":[],"merkleProofs":[]}`})
+				if err != nil {
+					return bad(c.Mode+"/abandon", "harness:slow-upload", "%v", err)
+				}
+				dl := time.Now().Add(5 * time.Second)
+				for time.Now().Before(dl) {
+					if sc := ts.scrape(5 * time.Second); sc.HasGauge && sc.InFlight >= 1 {
+						break
+					}
+					time.Sleep(2 * time.Millisecond)
+				}
+				su.close()
+				abandoned++
+			}
+			tags = append(tags, "abandoned-upload")
 		case "scrape":
 			sc := ts.scrape(5 * time.Second)
 			if sc.Err != "" || sc.Status != 200 {
